@@ -300,7 +300,8 @@ pub fn run(run: &Run) {
     run.count("enum_values", vals.len() as u64);
     vals.par_iter().for_each(|v| {
         run.eval(1);
-        let s = f.e.format_narsese(&v.build());
+        let v2 = v.clone();
+        let Ok(s) = crate::report::quiet_catch(std::panic::AssertUnwindSafe(move || f.e.format_narsese(&v2.build()))) else { return };
         distinct.add(&s);
         let k = match v.kind() { Kind::Term => "term", Kind::Sentence => "sentence", Kind::Task => "task" };
         if let Err(msg) = crate::watch::case(&s, || case(&s, k)) {
